@@ -74,6 +74,7 @@ class Gen:
         self._pending_multi = False
         self.multi = []        # descriptions of the faults injected through inject2
         self.injected = None   # description of the injected fault
+        self.last_closed = None     # names declared in the block(s) of the statement just generated
         self.force_variant = None   # which variant of a fault to inject (cycled by the fault stream)
         self.variant_missed = False  # the forced variant was not applicable at the chosen site
         self.work_types = []
@@ -380,11 +381,14 @@ class Gen:
         n = max(0, int(n * self.size + 0.5)) if self.size != 1.0 else n
         out = []
         for _ in range(n):
+            self.last_closed = None
             st = self.stmt(kind, depth, in_loop, ret_ty)
             if isinstance(st, tuple):
                 out.extend(st[1])      # ("multi", [statements])
             else:
                 out.append(st)
+                if st[0] in ("if", "loop") and self.last_closed:
+                    out.extend(self.scope_exit_probe())
         # terminator
         term = None
         if kind == "fn":
@@ -426,8 +430,37 @@ class Gen:
                     self.injected = {"rule": "R21", "kind": kindmap[term[0]], "block": kind, "after": term[0]}
                     out.append(["let", self.ident("late"), 0, ["noty"], self.expr(P("i32"), 0)])
         if kind != "fn":
-            self.scopes.pop()
+            closed = self.scopes.pop()
+            # names declared in the block that just ended (merged over the blocks of one statement)
+            self.last_closed = dict(self.last_closed or {}, **closed)
         return out
+
+    def scope_exit_probe(self):
+        """Right after a nested statement: use a name that was (re)declared inside it.  If the name is
+        also visible outside, the use must see the OUTER declaration (well-formed: an assignment of a
+        literal when it is mutable, a read otherwise); a name declared only inside is not in scope
+        any more (fault R7x: ValueNotFound).  Anything that remembers a lookup across the end of
+        a block shows up here."""
+        r = self.rng
+        closed, self.last_closed = self.last_closed, None
+        if r.random() < 0.55:
+            return []
+        outer = [(n, self.lookup(n)) for n in closed if self.lookup(n) is not None]
+        outer = [(n, tm) for n, tm in outer if tm[0][0] == "p"]
+        if outer:
+            n, (t, mut) = r.choice(outer)
+            if mut and r.random() < 0.5:
+                return [["bind", self.ident(n), ["expr", ["prim", self.lit(t[1])]]]]
+            probe = "v" if n != "v" else "w"
+            st = ["let", self.ident(probe), 0, ["ty", self.ty(t)], ["expr", ["name", self.ident(n)]]]
+            self.scopes[-1][probe] = (t, False)
+            return [st]
+        inner_only = [n for n in closed if self.lookup(n) is None and n not in self.consts]
+        if inner_only and self.site("R7x"):
+            n = r.choice(inner_only)
+            self.injected = {"rule": "R7x", "kind": "ValueNotFound", "name": n}
+            return [["let", self.ident("late"), 0, ["noty"], ["expr", ["name", self.ident(n)]]]]
+        return []
 
     def stmt(self, kind, depth, in_loop, ret_ty):
         r = self.rng
@@ -647,7 +680,7 @@ class Gen:
         return out
 
 
-RULES = ["R1", "R2", "R3", "R4", "R5", "R6c", "R6f", "R6p", "R7", "R7s", "R9", "R10", "R11", "R14", "R15",
+RULES = ["R1", "R2", "R3", "R4", "R5", "R6c", "R6f", "R6p", "R7", "R7s", "R7x", "R9", "R10", "R11", "R14", "R15",
          "R16", "R18", "R20", "R21", "R22"]
 
 
